@@ -334,6 +334,42 @@ impl<'tcx> Ex<'tcx> {
                 let sig = tcx.fn_sig(rd).instantiate_identity().skip_norm_wip();
                 o.put("unsafe", J::Bool(sig.safety().is_unsafe()));
             }
+            // `<T as Into<U>>::into` / `<T as TryInto<U>>::try_into` are blanket wrappers: also resolve the
+            // `<U as From<T>>::from` / `<U as TryFrom<T>>::try_from` they forward to.
+            {
+                let rp = self.def_path(rd);
+                let which = if rp == "<T as std::convert::Into<U>>::into" || rp == "<T as core::convert::Into<U>>::into" {
+                    Some((rustc_span::sym::From, "from"))
+                } else if rp == "<T as std::convert::TryInto<U>>::try_into" || rp == "<T as core::convert::TryInto<U>>::try_into" {
+                    Some((rustc_span::sym::TryFrom, "try_from"))
+                } else {
+                    None
+                };
+                if let Some((trait_sym, meth)) = which {
+                    if let Some(trait_did) = tcx.get_diagnostic_item(trait_sym) {
+                        let m = tcx
+                            .associated_items(trait_did)
+                            .in_definition_order()
+                            .find(|it| it.name().as_str() == meth)
+                            .map(|it| it.def_id);
+                        if let (Some(mdid), true) = (m, inst.args.len() >= 2) {
+                            let t_ty = inst.args.type_at(0);
+                            let u_ty = inst.args.type_at(1);
+                            let nargs = tcx.mk_args(&[u_ty.into(), t_ty.into()]);
+                            if let Some(inner) = Instance::try_resolve(tcx, env, mdid, nargs).ok().flatten() {
+                                let mut v = J::obj();
+                                v.put("rkey", J::s(self.inst_key(inner)));
+                                v.put("rpath", J::s(self.def_path(inner.def_id())));
+                                v.put("rkrate", J::s(krate_name(tcx, inner.def_id())));
+                                o.put("via", v);
+                                if self.is_ws(inner.def_id()) {
+                                    self.enqueue(inner, env, depth + 1);
+                                }
+                            }
+                        }
+                    }
+                }
+            }
             if self.is_ws(rd) {
                 self.enqueue(inst, env, depth + 1);
             } else {
